@@ -166,7 +166,8 @@ async fn step(w: &mut World, t: &mut Trace, s: &Value) {
             let i = uz(&s["node"]) as usize - 1;
             w.adverts.clear();
             let held = w.nodes[i].all_listed().len();
-            w.nodes[i].driver.verif_reset_replication_timers();
+            // ten minutes pass (longer than every replication throttle): the real throttle state decides, nothing is reset
+            w.nodes[i].driver.verif_age_replication_timers(600);
             let _ = w.nodes[i].driver.verif_handle_local_cmd(LocalSwarmCmd::TriggerIntervalReplication);
             pump(w, true).await;
             let adverts = std::mem::take(&mut w.adverts);
